@@ -627,11 +627,18 @@ static void run_one(int id)
 	if (!x->ds) { fprintf(stderr, "cannot create source kind %d\n", x->kind); exit(3); }
 	x->dr = x->ds->ds_refs;
 	dispatch_set_context(x->ds, x);
-	dispatch_source_set_event_handler_f(x->ds, ev_handler);
+	/* both forms of every handler setter (function + context, block) reach the same source machine */
+	int blockform = (int)(vrt_rand() & 1);
+	if (blockform) dispatch_source_set_event_handler(x->ds, ^{ ev_handler(x); });
+	else dispatch_source_set_event_handler_f(x->ds, ev_handler);
 	dispatch_set_finalizer_f(x->ds, finalizer_fn);
-	if (x->has_ch) dispatch_source_set_cancel_handler_f(x->ds, cancel_handler);
+	if (x->has_ch) {
+		if (blockform) dispatch_source_set_cancel_handler(x->ds, ^{ cancel_handler(x); });
+		else dispatch_source_set_cancel_handler_f(x->ds, cancel_handler);
+	}
 	if (is_reg_mode(x->mode)) {
-		dispatch_source_set_registration_handler_f(x->ds, reg_handler);
+		if (blockform) dispatch_source_set_registration_handler(x->ds, ^{ reg_handler(x); });
+		else dispatch_source_set_registration_handler_f(x->ds, reg_handler);
 		/* an event is already due when the source gets registered */
 		if (x->kind == K_READ_PIPE || x->kind == K_READ_SOCK) (void)!write(x->peerfd, "p", 1);
 		if (x->kind == K_SIGNAL) kill(getpid(), SIGUSR1);
